@@ -261,7 +261,7 @@ def run(ctx):
                 "unrestricted runs); jvp/vjp called exactly as driver.afqmc does; state = (cell, stream, observable)")
     ctx.assume("derivatives are linear in the observable, so the basis decides every observable")
     ctx.assume("finite-difference comparison only where the primal itself is smooth (two FD steps agree); skipped streams are counted")
-    ctx.pmap(job, configs(ctx.tier, ctx.seed))
+    ctx.pmap(job, configs(ctx.tier, ctx.seed), tasks_per_child=2)
     ctx.require_guard("fd_comparisons", "trace_checked", "onebody_response_checked", "plain_compared", "streams")
 
 
